@@ -36,7 +36,14 @@ struct P8 { int a; int b; };
 struct Ctx { int v; };
 struct Ev { int x; };
 
-using Cfg = ffsm2::Config::ContextT<Ctx&>
+// W_VALCTX: the context is held by value (then machines are also move-constructible; with a reference context the move
+// constructor of the core does not compile)
+#ifdef W_VALCTX
+#define W_CTX Ctx
+#else
+#define W_CTX Ctx&
+#endif
+using Cfg = ffsm2::Config::ContextT<W_CTX>
 #ifndef W_VOID
 	::PayloadT<W_PAYLOAD>
 #endif
@@ -132,5 +139,10 @@ void w_drive(Ctx& c, Ev& e, WLogger* l W_P(, const W_PAYLOAD& p)) {
 #endif
 	(void) m.context(); (void) m.access<A>();
 	FSM::Instance m2{m};
+#ifdef W_VALCTX
+	FSM::Instance m3{static_cast<FSM::Instance&&>(m2)};
+	FSM::Instance m4{Ctx{7}};       // construction from an rvalue context
+	(void) m3; (void) m4;
+#endif
 	// move construction does not compile with a reference context (CoreT move ctor binds Ctx& to move(other.context)): not part of this witness
 }
